@@ -495,3 +495,328 @@ pub fn gen_elem(rng: &mut Rng, uniq: &mut u32, allow_indef: bool) -> Elem {
         }
     }
 }
+
+// ------------------------------------------------------------------------------------------
+// Strict recogniser of the generator's own language. Used as a ONE-SIDED oracle for messages
+// damaged in flight: if the damaged bytes are still a member of this (deliberately narrow,
+// certainly well-formed) language, their decomposition is known and the structural oracles
+// apply; otherwise nothing is asserted beyond the universal invariants.
+
+struct Cur<'a> {
+    b: &'a [u8],
+    i: usize,
+}
+
+impl<'a> Cur<'a> {
+    fn peek(&self) -> Option<u8> {
+        self.b.get(self.i).copied()
+    }
+    fn eat(&mut self, c: u8) -> bool {
+        if self.peek() == Some(c) {
+            self.i += 1;
+            true
+        } else {
+            false
+        }
+    }
+    fn ws(&mut self) -> B {
+        let s = self.i;
+        while let Some(c) = self.peek() {
+            if is_ws(c) {
+                self.i += 1;
+            } else {
+                break;
+            }
+        }
+        B(self.b[s..self.i].to_vec())
+    }
+    fn rest(&self) -> &'a [u8] {
+        &self.b[self.i..]
+    }
+}
+
+fn strict_mnemonic(c: &mut Cur) -> Option<String> {
+    let s = c.i;
+    match c.peek() {
+        Some(x) if x.is_ascii_alphabetic() => c.i += 1,
+        _ => return None,
+    }
+    while let Some(x) = c.peek() {
+        if x.is_ascii_alphanumeric() || x == b'_' {
+            c.i += 1;
+        } else {
+            break;
+        }
+    }
+    if c.i - s > 12 {
+        return None;
+    }
+    Some(String::from_utf8(c.b[s..c.i].to_vec()).ok()?)
+}
+
+/// after an element: optional white space, then ',' / ';' / end-of-message must follow
+fn at_elem_end(c: &Cur) -> bool {
+    let mut j = c.i;
+    while j < c.b.len() && is_ws(c.b[j]) {
+        j += 1;
+    }
+    matches!(c.b.get(j), None | Some(b',') | Some(b';') | Some(b'\n'))
+}
+
+fn strict_elem(c: &mut Cur) -> Option<Elem> {
+    let x = c.peek()?;
+    if x.is_ascii_alphabetic() {
+        let m = strict_mnemonic(c)?;
+        return if at_elem_end(c) { Some(Elem::Chr(m)) } else { None };
+    }
+    if x.is_ascii_digit() || x == b'+' || x == b'-' || x == b'.' {
+        let s = c.i;
+        if matches!(c.peek(), Some(b'+') | Some(b'-')) {
+            c.i += 1;
+        }
+        let d0 = c.i;
+        while matches!(c.peek(), Some(d) if d.is_ascii_digit()) {
+            c.i += 1;
+        }
+        let lead = c.i > d0;
+        let mut frac = false;
+        if c.peek() == Some(b'.') {
+            c.i += 1;
+            let f0 = c.i;
+            while matches!(c.peek(), Some(d) if d.is_ascii_digit()) {
+                c.i += 1;
+            }
+            frac = c.i > f0;
+        }
+        if !lead && !frac {
+            return None;
+        }
+        if matches!(c.peek(), Some(b'E') | Some(b'e')) {
+            c.i += 1;
+            if matches!(c.peek(), Some(b'+') | Some(b'-')) {
+                c.i += 1;
+            }
+            let e0 = c.i;
+            while matches!(c.peek(), Some(d) if d.is_ascii_digit()) {
+                c.i += 1;
+            }
+            if c.i == e0 {
+                return None;
+            }
+        }
+        let num = String::from_utf8(c.b[s..c.i].to_vec()).ok()?;
+        if at_elem_end(c) {
+            return Some(Elem::Dec(num));
+        }
+        // suffix (optionally after white space)
+        let save = c.i;
+        let ws = c.ws();
+        let s0 = c.i;
+        match c.peek() {
+            Some(a) if a.is_ascii_alphabetic() && a != b'E' && a != b'e' => {}
+            _ => {
+                c.i = save;
+                return None;
+            }
+        }
+        while matches!(c.peek(), Some(a) if a.is_ascii_alphanumeric() || a == b'-' || a == b'/' || a == b'.') {
+            c.i += 1;
+        }
+        if c.i - s0 > 12 || !at_elem_end(c) {
+            return None;
+        }
+        let suf = String::from_utf8(c.b[s0..c.i].to_vec()).ok()?;
+        return Some(Elem::DecSuf { num, ws, suf });
+    }
+    if x == b'"' || x == b'\'' {
+        c.i += 1;
+        let s = c.i;
+        loop {
+            let y = c.peek()?;
+            if !y.is_ascii() {
+                return None;
+            }
+            c.i += 1;
+            if y == x {
+                if c.peek() == Some(x) {
+                    c.i += 1;
+                    continue;
+                }
+                break;
+            }
+        }
+        let inner = B(c.b[s..c.i - 1].to_vec());
+        return if at_elem_end(c) { Some(Elem::Str { q: x as char, inner }) } else { None };
+    }
+    if x == b'(' {
+        c.i += 1;
+        let s = c.i;
+        loop {
+            let y = c.peek()?;
+            if y == b')' {
+                break;
+            }
+            if !y.is_ascii() || matches!(y, b'"' | b'\'' | b';' | b'(') {
+                return None;
+            }
+            c.i += 1;
+        }
+        let inner = B(c.b[s..c.i].to_vec());
+        c.i += 1;
+        return if at_elem_end(c) { Some(Elem::Expr(inner)) } else { None };
+    }
+    if x == b'#' {
+        c.i += 1;
+        let y = c.peek()?;
+        if y == b'0' {
+            // indefinite: everything up to the final NL, which must end the message
+            c.i += 1;
+            let rest = c.rest();
+            if rest.last() != Some(&b'\n') {
+                return None;
+            }
+            let payload = B(rest[..rest.len() - 1].to_vec());
+            c.i = c.b.len();
+            return Some(Elem::BlkIndef { payload });
+        }
+        if y.is_ascii_digit() {
+            c.i += 1;
+            let n = (y - b'0') as usize;
+            let field = c.b.get(c.i..c.i + n)?;
+            if !field.iter().all(|d| d.is_ascii_digit()) {
+                return None;
+            }
+            let len: usize = std::str::from_utf8(field).ok()?.parse().ok()?;
+            c.i += n;
+            let payload = c.b.get(c.i..c.i + len)?;
+            let payload = B(payload.to_vec());
+            c.i += len;
+            let pad = (n - len.to_string().len()) as u8;
+            return if at_elem_end(c) { Some(Elem::Blk { payload, pad }) } else { None };
+        }
+        if matches!(y, b'H' | b'h' | b'Q' | b'q' | b'B' | b'b') {
+            c.i += 1;
+            let radix = match y.to_ascii_uppercase() {
+                b'H' => 16,
+                b'Q' => 8,
+                _ => 2,
+            };
+            let s = c.i;
+            while matches!(c.peek(), Some(d) if (d as char).is_digit(radix)) {
+                c.i += 1;
+            }
+            if c.i == s {
+                return None;
+            }
+            let digits = String::from_utf8(c.b[s..c.i].to_vec()).ok()?;
+            u64::from_str_radix(&digits, radix).ok()?;
+            return if at_elem_end(c) { Some(Elem::NonDec { radix: y as char, digits }) } else { None };
+        }
+        return None;
+    }
+    None
+}
+
+/// Parse `bytes` as a member of the generator's language. Units get default (empty) plans.
+pub fn parse_strict(bytes: &[u8]) -> Option<Msg> {
+    let mut c = Cur { b: bytes, i: 0 };
+    let mut units: Vec<Unit> = Vec::new();
+    loop {
+        let mut u = Unit::default();
+        if !units.is_empty() {
+            u.lead = c.ws();
+        }
+        // a trailing ';' (possibly followed by white space / NL) ends the message
+        if !units.is_empty() && matches!(c.rest(), b"" | b"\n") {
+            let mut end = vec![b';'];
+            end.extend_from_slice(u.lead.as_slice());
+            end.extend_from_slice(c.rest());
+            let m = Msg { units, end: B(end) };
+            return if msg_in_domain(&m) { Some(m) } else { None };
+        }
+        // header
+        if c.peek() == Some(b'*') {
+            c.i += 1;
+            let m = strict_mnemonic(&mut c)?;
+            if m.len() > 11 {
+                return None;
+            }
+            u.path = vec![format!("*{}", m)];
+        } else {
+            u.colon = c.eat(b':');
+            loop {
+                u.path.push(strict_mnemonic(&mut c)?);
+                if c.peek() == Some(b':') {
+                    c.i += 1;
+                    continue;
+                }
+                break;
+            }
+        }
+        u.query = c.eat(b'?');
+        // what follows the header: white space, ';', NL, or end
+        let hs = c.ws();
+        match c.peek() {
+            None | Some(b';') | Some(b'\n') => {
+                u.hsep = hs;
+            }
+            Some(_) => {
+                if hs.is_empty() {
+                    return None;
+                }
+                u.hsep = hs;
+                loop {
+                    let e = strict_elem(&mut c)?;
+                    let indef = matches!(e, Elem::BlkIndef { .. });
+                    u.params.push(e);
+                    if indef {
+                        break;
+                    }
+                    let save = c.i;
+                    let w1 = c.ws();
+                    if c.peek() == Some(b',') {
+                        c.i += 1;
+                        let w2 = c.ws();
+                        let mut sep = w1.0;
+                        sep.push(b',');
+                        sep.extend_from_slice(&w2.0);
+                        u.psep.push(B(sep));
+                        continue;
+                    }
+                    c.i = save;
+                    u.tail = c.ws();
+                    break;
+                }
+            }
+        }
+        let indef_end = matches!(u.params.last(), Some(Elem::BlkIndef { .. }));
+        units.push(u);
+        if indef_end {
+            let m = Msg { units, end: B::new() };
+            return if msg_in_domain(&m) { Some(m) } else { None };
+        }
+        match c.peek() {
+            Some(b';') => {
+                c.i += 1;
+                continue;
+            }
+            _ => {
+                // the tail white space was already consumed into hsep/tail; what remains must
+                // be one of the accepted endings
+                let last = units.last_mut().unwrap();
+                let mut end: Vec<u8> = Vec::new();
+                // move trailing white space of the last unit into the message ending
+                if last.params.is_empty() {
+                    end.extend_from_slice(last.hsep.as_slice());
+                    last.hsep = B::new();
+                } else {
+                    end.extend_from_slice(last.tail.as_slice());
+                    last.tail = B::new();
+                }
+                end.extend_from_slice(c.rest());
+                let m = Msg { units, end: B(end) };
+                return if msg_in_domain(&m) { Some(m) } else { None };
+            }
+        }
+    }
+}
